@@ -138,6 +138,7 @@ def structural_mutants(rng, wire, limit=None, unknown_types=(0x0F01, 0x0F00)):
         muts.append(('len-1', path))
         muts.append(('len-big', path))
         muts.append(('empty', path))
+        muts.append(('cut-varnum', path))
     rng.shuffle(muts)
     if limit is not None:
         muts = muts[:limit]
@@ -162,6 +163,16 @@ def structural_mutants(rng, wire, limit=None, unknown_types=(0x0F01, 0x0F00)):
             new = _edit(tree, path, lambda l, i: l[:i + 1] + [rc.enc_tlv(noncrit, b'')] + l[i + 1:])
         elif kind == 'empty':
             new = _edit(tree, path, lambda l, i: l[:i] + [rc.enc_tlv(t, b'')] + l[i + 1:])
+        elif kind == 'cut-varnum':
+            # the parent ends in the middle of a multi-octet Type or Length number (3-, 5- or 9-octet form cut short);
+            # enclosing lengths are recomputed, so only the cut number itself is ill-formed
+            marker, full = rng.choice([(0xFD, 2), (0xFE, 4), (0xFE, 4), (0xFF, 8), (0xFF, 8)])
+            tail = bytes([marker]) + bytes(rng.choice([0, 0, 1, 0x61, 0xFF]) for _ in range(rng.randrange(full)))
+            if rng.random() < 0.7:
+                tt = t if rng.random() < 0.5 else rng.choice([0x15, 0x24, 0x21, 0x12, 0x0F00, 0x50, 0x08, 0x16])
+                tail = rc.enc_var(tt) + tail          # the Length number is cut; otherwise the Type number is
+            keep = rng.random() < 0.5
+            new = _edit(tree, path, lambda l, i: l[:i + 1 if keep else i] + [tail])
         else:
             # inconsistent length edit directly on the bytes (only when the length is one byte)
             tl = rc.var_size(t)
